@@ -219,6 +219,7 @@ pub fn evaluate(table: &Table, anchors: &[(u8, Vec<u8>)], query: &(String, u16),
         let mut remaining = None;
         let mut max_orig = None;
         let mut not_enclosing = false;
+        let mut some_enclosing = false;
         for (r_owner, r) in &sigs {
             let cands = key_candidates(table, anchors, &r.signer, now, &mut unknown);
             if cands.is_empty() {
@@ -241,7 +242,9 @@ pub fn evaluate(table: &Table, anchors: &[(u8, Vec<u8>)], query: &(String, u16),
                     let rem = r.expiration.wrapping_sub(now);
                     remaining = Some(remaining.map_or(rem, |x: u32| x.max(rem)));
                     max_orig = Some(max_orig.map_or(r.original_ttl, |x: u32| x.max(r.original_ttl)));
-                    if !encloses(&r.signer, &g.owner) {
+                    if encloses(&r.signer, &g.owner) {
+                        some_enclosing = true;
+                    } else {
                         not_enclosing = true;
                     }
                 }
@@ -266,7 +269,8 @@ pub fn evaluate(table: &Table, anchors: &[(u8, Vec<u8>)], query: &(String, u16),
             remaining,
             max_original_ttl: max_orig,
             max_received_ttl: g.rrs.iter().map(|r| r.ttl).max().unwrap_or(0),
-            passing_signer_not_enclosing: not_enclosing,
+            // every passing candidate has a signer that does not enclose the owner
+            passing_signer_not_enclosing: not_enclosing && !some_enclosing,
         });
     }
     Some(out)
